@@ -100,7 +100,7 @@ SPECS = {
     "C10": _rt(
         "execute hands the payload's outcome to the caller and leaves the runtime alone",
         "one runtime per seed: bystanders with heartbeats in every flavour, 1-8 execute calls (target flavour x calling context: outside thread, thread payload, coroutine payload of another flavour "
-        "x outcome: None / falsy / truthy object / Exception subclass x argument lists), then a late adoption and a harness shutdown; "
+        "x outcome: None / falsy / truthy object / unstarted coroutine or generator object / Exception subclass x argument lists), then a late adoption and a harness shutdown; "
         "non-trivial = at least one execute call completed; distinct = distinct (multiset of (target, caller, outcome), population, schedule-trace hash)",
         5000,
         500000,
